@@ -3,6 +3,8 @@
 package httpp
 
 import (
+	"bytes"
+	"io"
 	"net/http"
 	"net/http/httptest"
 	"net/url"
@@ -14,4 +16,18 @@ func VerifC35Filter(path string) bool {
 	h := &handlerFilterRequests{h: http.HandlerFunc(func(http.ResponseWriter, *http.Request) { passed = true })}
 	h.ServeHTTP(httptest.NewRecorder(), &http.Request{Method: http.MethodGet, URL: &url.URL{Path: path}})
 	return passed
+}
+
+// VerifC35Dump runs the real dumpRequest on a request with the given declared length and body and
+// returns the logged body part (what follows the header block).
+func VerifC35Dump(contentLength int64, body []byte) []byte {
+	req := &http.Request{
+		Method: http.MethodPost, URL: &url.URL{Path: "/"}, ProtoMajor: 1, ProtoMinor: 1,
+		Header: http.Header{}, ContentLength: contentLength, Body: io.NopCloser(bytes.NewReader(body)),
+	}
+	out := dumpRequest(req)
+	if i := bytes.Index(out, []byte("\r\n\r\n")); i >= 0 {
+		return out[i+4:]
+	}
+	return out
 }
